@@ -685,6 +685,64 @@ impl Oracle {
             if total_stakes.len() > 1 {
                 self.report(step, "total-stake-depends-on-order", format!("epoch {e}: total stake values {total_stakes:?}"));
             }
+            // (b') a key-registration session that sees the arrivals as a duplicating network
+            // delivers them: every registration at least once, some again later (refused as
+            // already registered, the session goes on), in a seeded order
+            {
+                use mithril_common::crypto_helper::{ProtocolClerk, ProtocolKeyRegistration, ProtocolStakeDistribution, SignerRegistrationParameters};
+                let mut r = sim_core::Rng::for_run(w.sc.seed, "c06-session", w.sc.run * 131 + e);
+                for session_no in 0..3 {
+                    let mut arrivals: Vec<SignerWithStake> = current.clone();
+                    r.shuffle(&mut arrivals);
+                    let firsts = arrivals.len();
+                    for i in 0..firsts {
+                        if r.chance(0.5) {
+                            let again = arrivals[i].clone();
+                            let at = i + 1 + r.index(arrivals.len() - i);
+                            arrivals.insert(at.min(arrivals.len()), again);
+                        }
+                    }
+                    let stake_distribution: ProtocolStakeDistribution = current.iter().map(|s| s.into()).collect();
+                    let mut session = ProtocolKeyRegistration::init(&stake_distribution);
+                    let mut refused = 0;
+                    for s in &arrivals {
+                        let res = session.register(SignerRegistrationParameters {
+                            party_id: Some(s.party_id.clone()),
+                            operational_certificate: s.operational_certificate.clone(),
+                            verification_key_signature_for_concatenation: s.verification_key_signature_for_concatenation,
+                            kes_evolutions: s.kes_evolutions,
+                            verification_key_for_concatenation: s.verification_key_for_concatenation,
+                        });
+                        if res.is_err() {
+                            refused += 1;
+                        }
+                    }
+                    self.probe("c06_registration_sessions");
+                    if refused > 0 {
+                        self.probe("c06_registration_sessions_with_refused_duplicates");
+                    }
+                    if refused != arrivals.len() - firsts {
+                        self.report(step, "avk-depends-on-order-or-path", format!("epoch {e}: a key-registration session refused {refused} of {} arrivals, {} of them were repeats", arrivals.len(), arrivals.len() - firsts));
+                        continue;
+                    }
+                    let stm_params: mithril_common::crypto_helper::ProtocolParameters = params.clone().into();
+                    match session.close(&stm_params) {
+                        Ok(closed) => {
+                            let avk = ProtocolClerk::new_clerk_from_closed_key_registration(&stm_params, &closed).compute_aggregate_verification_key();
+                            total_stakes.insert(avk.to_concatenation_aggregate_verification_key().get_total_stake());
+                            let hex = avk_hex(&avk.into()).unwrap_or_default();
+                            if !Self::same_avk(&hex, &c.aggregate_verification_key) {
+                                self.report(step, "avk-depends-on-arrival-history", format!(
+                                    "epoch {e}: a key-registration session that received the same registrations in another order with {refused} repeated (refused) arrivals (session #{session_no}) closes on an aggregate key different from the one in the aggregator's certificate {}", short(&c.hash)));
+                            }
+                        }
+                        Err(err) => self.report(step, "avk-depends-on-arrival-history", format!("epoch {e}: key-registration session does not close: {err:#}")),
+                    }
+                }
+                if total_stakes.len() > 1 {
+                    self.report(step, "total-stake-depends-on-order", format!("epoch {e}: total stake values {total_stakes:?} (signer paths and key-registration sessions with repeated arrivals)"));
+                }
+            }
             // signer slot of each party: the same under two arrival orders
             let message = "c06-slot-probe".to_string();
             for party in 0..w.parties.len() {
